@@ -42,7 +42,6 @@ pub struct TokenRec {
     pub drops: u32,
 }
 
-#[derive(Default)]
 pub struct Ctx {
     events: Mutex<Vec<Ev>>,
     ledger: Mutex<Vec<TokenRec>>,
@@ -50,17 +49,36 @@ pub struct Ctx {
     pcount: AtomicU64,
     /// when set, events are not recorded (C16: only results are compared)
     pub quiet: std::sync::atomic::AtomicBool,
+    /// when >= 0: every event is also written to this file descriptor as one JSON line
+    /// (`E {...}`) at the moment it happens, so that a parent process still has the trace if
+    /// this process dies during a call
+    pub sink_fd: std::sync::atomic::AtomicI32,
 }
 
 impl Ctx {
     pub fn new() -> Arc<Ctx> {
-        Arc::new(Ctx::default())
+        Arc::new(Ctx {
+            events: Default::default(),
+            ledger: Default::default(),
+            scripts: Default::default(),
+            pcount: Default::default(),
+            quiet: Default::default(),
+            sink_fd: std::sync::atomic::AtomicI32::new(-1),
+        })
     }
     pub fn ev(&self, k: &str, n: &[u64], d: Vec<DV>) {
         if self.quiet.load(Ordering::Relaxed) {
             return;
         }
-        self.events.lock().unwrap().push(Ev { k: k.to_string(), n: n.to_vec(), d });
+        let e = Ev { k: k.to_string(), n: n.to_vec(), d };
+        let fd = self.sink_fd.load(Ordering::Relaxed);
+        if fd >= 0 {
+            use std::io::Write;
+            use std::os::fd::FromRawFd;
+            let mut f = std::mem::ManuallyDrop::new(unsafe { std::fs::File::from_raw_fd(fd) });
+            let _ = writeln!(f, "E {}", serde_json::to_string(&e).unwrap());
+        }
+        self.events.lock().unwrap().push(e);
     }
     pub fn events(&self) -> Vec<Ev> {
         self.events.lock().unwrap().clone()
